@@ -379,8 +379,8 @@ func (cx *Ctx) checkAttrFilter(r *Report) {
 					provided = a
 				}
 				// a struct value: the fields stored into the literal it was loaded from
-				if ld, isLd := a.(*ssa.UnOp); isLd {
-					if al, isAl := ld.X.(*ssa.Alloc); isAl {
+				if al := paramObjectOf(a); al != nil {
+					{
 						for _, ref := range nonDebugRefs(al) {
 							if fa, isFA := ref.(*ssa.FieldAddr); isFA {
 								for _, r2 := range nonDebugRefs(fa) {
